@@ -142,7 +142,7 @@ META2 = {
         explanation="s_step.c: a call in which the read is refused leaves the command FSM, its buffer and the variables unchanged and makes no callback; a refused write leaves the flushing machine unchanged; "
                     "reading states poll the input (at least one attempt; not 'exactly one': the property does not forbid draining several available bytes per call), other states never read. r_twin.c MODE 1: the same line run eagerly and under a symbolic schedule - up to R read and R write refusals at symbolic service steps plus one refusal tied to a symbolic BYTE boundary "
                     "(the first attempt to read byte `cut` is answered 'not yet', also between two reads of one call) - gives the same output bytes, handler log, write-handler arguments and variable values.",
-        bounds={"quick": "109 step jobs + 3 twin shapes (ATnL run, gxL malformed line with a possible CR, ATnRnL CR inside the name) with <= 1 read and <= 1 write refusal at arbitrary steps + the byte-boundary refusal", "thorough": "1516 step jobs + 5 twin shapes (<= 1 refusal of each kind + the byte-boundary refusal; two of each kind were tried and do not converge within the budget)"},
+        bounds={"quick": "109 step jobs + 3 twin shapes (ATnL run, gxL malformed line with a possible CR, ATnRnL CR inside the name) with <= 1 read and <= 1 write refusal at arbitrary steps + the byte-boundary refusal", "thorough": "1516 step jobs + 4 twin shapes (quick's three + ATn?L; <= 1 refusal of each kind + the byte-boundary refusal; two of each kind and the write shape ATn=aL were tried and do not converge within the budget)"},
         outside="more refusals in one line at line level (the step lemma covers any number)",
         assumptions=[RI_NOTE, FAMILY, "io->read returns 0 or 1 and leaves *ch alone when it returns 0"],
         level_text="inductive stutter lemma plus bounded self-composition"),
